@@ -247,6 +247,40 @@ def variant_b(node):
     raise HarnessError("variant_b")
 
 
+HUGE_N = 2**21 + 4321  # beyond 1 MiB and 2 MiB (chunked I/O, pooled buffers), no multiple of either; its length needs a 4-byte varint
+
+
+def huge_instances(node, ws=None, fname=None):
+    """One wire value per string / bytes / records slot of the tree (any depth): the base instance with a payload of
+    HUGE_N bytes in that slot.  Legacy strings (int16 length) cannot hold one and are left out."""
+    if isinstance(node, Leaf):
+        vals = [a for a in node.alts if a is not None]
+        if vals and all(isinstance(a, bytes) for a in vals) and b"" in vals:  # (a uuid slot holds 16-byte values only)
+            yield b"\xa7" * HUGE_N
+        elif vals and all(isinstance(a, str) for a in vals) and ws is not None and ws.flexible \
+                and not (ws.is_request_header and fname in ("client_id", "ClientId")):
+            yield "h" * HUGE_N
+        return
+    if isinstance(node, StructN):
+        base = base_value(node)
+        for name, child in node.children:
+            if name == "__x__":
+                continue
+            for hv in huge_instances(child, node.ws, name):
+                w = dict(base)
+                w[name] = hv
+                yield w
+        return
+    if isinstance(node, (OptN, DefaultFirst)):
+        yield from huge_instances(node.child, ws, fname)
+        return
+    if isinstance(node, ArrN):
+        for hv in huge_instances(node.elem, ws, fname):
+            yield [hv]
+        return
+    raise HarnessError("huge_instances")
+
+
 def gen(node, budget):
     """Yield (cost, wire value, edits) for every edit set of size <= budget, each once."""
     if isinstance(node, Leaf):
